@@ -106,6 +106,12 @@ def run(ctx):
             jobs.append((cfg, prog, 'opseq', n // 2, ctx['seed'] + k, ()))
         hold = ['hold 0 0', 'deref 0', 'deref 0'] if K != 1 else ['read 0', 'read 0']
         jobs.append((cfg, [hold, ['read 0'] * 3, ['repl 0'], ['repl 0']], 'phase3', 300, ctx['seed'], ()))
+        if any(x in name for x in ('ebr', 'debra', '_g')):
+            # record reuse inside ONE epoch: a reader enters its region after w epoch advances and keeps a guard; a thread exits; a new thread
+            # adopts its record in the same epoch, retires the guarded node and advances the epoch as far as it can: the adopter's per-thread
+            # epoch state must be re-initialised for every residue of the epoch (w sweeps the residues)
+            for w in range(5):
+                jobs.append((cfg, [['read 1'] * w + ['hold 0 0', 'deref 0', 'deref 0'], ['read 1'], ['repl 0', 'read 1', 'read 1', 'read 1', 'repl 1', 'read 1']], 'phase3', 24, ctx['seed'], ()))
         do_search(ctx, H, jobs, name, classify=lambda c, h, f, name=name: {'harness': name})
     ctx['cov']['bookkeeping_blocks_after_3_6_12_sequential_generations'] = growth
     return tie
